@@ -584,7 +584,9 @@ class HyperElastic(_Simu):
 
         # end cases ----------------------------------------------------
 
-        return self.Results_Reshape_values(values, nodeValues)
+        # flat nodal vectors (Nn * dof_n,) cannot be told from element values when Nn * dof_n == Ne
+        storedOnNodes = True if result in ["displacement", "speed", "accel"] else None
+        return self.Results_Reshape_values(values, nodeValues, storedOnNodes)
 
     def _Calc_W(self, returnScalar=True, matrixType=MatrixType.rigi):
         r"""Computes the hyperelastic strain energy.
